@@ -359,6 +359,9 @@ fn interpret(c: &mut Commands, ctx: &mut Ctx, act: &SAct)
 {
     match act
     {
+        // (only an exclusive body can call the `World`-level senders or flush: see `make_exclusive`)
+        SAct::Direct(a) => interpret(c, ctx, a),
+        SAct::Flush => {}
         SAct::Spawn => { let e = c.spawn_empty().id(); SH.with(|s| s.borrow_mut().ent_names.push(e)); }
         SAct::SpawnSys(d) => { spawn_scripted(c, *d); }
         SAct::On(m, d, ts) =>
@@ -716,10 +719,51 @@ fn make_exclusive(def: usize, name: usize) -> impl FnMut(&mut World, Local<u32>)
         if runaway() { return AnyRes::W(OK); }
         let script = script_for(def, run);
         let owner = format!("s{name}");
-        let mut c = world.commands();
-        run_script(&mut c, &mut Ctx::CommandsOnly, &script, &owner, run);
+        for (j, act) in script.iter().enumerate()
+        {
+            { let mut c = world.commands(); marker(&mut c, true, &owner, run, j); }
+            match act
+            {
+                SAct::Flush => world.flush(),
+                SAct::Direct(a) =>
+                {
+                    // the `World`-level senders, in-line: whatever the body queued so far (its own cleanup first) is applied,
+                    // then the event is delivered before the body goes on
+                    world.flush();
+                    direct_send(world, a);
+                }
+                _ => { let mut c = world.commands(); interpret(&mut c, &mut Ctx::CommandsOnly, act); }
+            }
+            { let mut c = world.commands(); marker(&mut c, false, &owner, run, j); }
+        }
         log(format!("bodyend s{name}"));
         scripted_result(name, run)
+    }
+}
+
+/// `World::send_system_event` / `World::broadcast` / `World::entity_event` (`ReactWorldExt`).
+fn direct_send(world: &mut World, act: &SAct)
+{
+    match act
+    {
+        SAct::SysEvent(r, ty, pid) =>
+        {
+            let Some(e) = resolve(*r) else { return };
+            log(format!("send p{pid}"));
+            if *ty == 0 { world.send_system_event(SystemCommand(e), Pay::<0>(Payload(*pid))); } else { world.send_system_event(SystemCommand(e), Pay::<1>(Payload(*pid))); }
+        }
+        SAct::Broadcast(ty, pid) =>
+        {
+            log(format!("send p{pid}"));
+            if *ty == 0 { world.broadcast(Evt::<0>(Payload(*pid))); } else { world.broadcast(Evt::<1>(Payload(*pid))); }
+        }
+        SAct::EntityEvent(r, ty, pid) =>
+        {
+            let Some(e) = resolve(*r) else { return };
+            log(format!("send p{pid}"));
+            if *ty == 0 { world.entity_event(e, Evt::<0>(Payload(*pid))); } else { world.entity_event(e, Evt::<1>(Payload(*pid))); }
+        }
+        _ => {}
     }
 }
 
